@@ -955,8 +955,74 @@ class Evaluator:
             return T.root(('try', xu))
         if src == 'ForLoopDesugar':
             return self.ev_forloop(e, env, body, depth)
+        if self.is_explicit_try(e):
+            # `match r { Ok(v) => v, Err(e) => return Err(e) }` (or Some/None) is `r?` written out
+            syn = {'k': 'Match', 'src': 'TryDesugar(explicit)', 'ty': e.get('ty'), '_nid': e.get('_nid'), 'span': e.get('span'),
+                   'scrut': {'k': 'Call', 'args': [e['scrut']], 'ty': e['scrut'].get('ty')}, 'arms': e['arms']}
+            for key in ('loc', 'line', 'file'):
+                if key in e:
+                    syn[key] = e[key]
+            return self.ev_Match(syn, env, body, depth)
         scrut = self.ev(e['scrut'], env, body, depth)
         return self.match_value(e, scrut, env, body, depth)
+
+    @staticmethod
+    def _strip(x):
+        while x is not None and (x.get('k') in ('DropTemps', 'Use') or
+                                 (x.get('k') == 'Block' and not x.get('stmts') and x.get('expr') is not None)):
+            x = x['expr'] if x.get('k') == 'Block' else x['e']
+        return x
+
+    def is_explicit_try(self, e):
+        arms = e.get('arms', [])
+        if e.get('src', '') not in ('', 'Normal') or len(arms) != 2 or any(a.get('guard') is not None for a in arms):
+            return False
+        sty = e['scrut'].get('ty', '')
+        if not (sty.startswith('std::result::Result') or sty.startswith('std::option::Option')):
+            return False
+
+        def ctor(p):
+            if p.get('k') not in ('TupleStruct', 'Path'):
+                return None, None
+            path = p['path'].get('ctor_of') or p['path'].get('def') or p['path'].get('name') or ''
+            return path.split('::')[-1], p.get('ps', [])
+        good = bad = None
+        for a in arms:
+            c, ps = ctor(a['pat'])
+            if c in ('Ok', 'Some'):
+                good = (a, ps)
+            elif c in ('Err', 'None'):
+                bad = (a, ps, c)
+        if good is None or bad is None:
+            return False
+        # value arm: Ok(v) => v
+        a, ps = good
+        if len(ps) != 1 or ps[0].get('k') != 'Bind' or 'sub' in ps[0]:
+            return False
+        b = self._strip(a['body'])
+        if b.get('k') != 'Path' or b.get('res') != 'Local' or b.get('id') != ps[0].get('id'):
+            return False
+        # returning arm: Err(e) => return Err(e)   /   None => return None
+        a, ps, c = bad
+        r = self._strip(a['body'])
+        if r.get('k') != 'Ret' or r.get('e') is None:
+            return False
+        rv = self._strip(r['e'])
+        if c == 'None':
+            if rv.get('k') != 'Path':
+                return False
+            nm = (rv.get('ctor_of') or rv.get('def') or rv.get('name') or '')
+            return nm.split('::')[-1] == 'None'
+        if len(ps) != 1 or ps[0].get('k') != 'Bind' or 'sub' in ps[0]:
+            return False
+        if rv.get('k') != 'Call' or len(rv.get('args', [])) != 1:
+            return False
+        fp = rv.get('fnpath') or {}
+        fn = fp.get('ctor_of') or fp.get('def') or ''
+        if fn.split('::')[-1] != 'Err':
+            return False
+        arg = self._strip(rv['args'][0])
+        return arg.get('k') == 'Path' and arg.get('res') == 'Local' and arg.get('id') == ps[0].get('id')
 
     def match_value(self, e, scrut, env, body, depth, fuel=6):
         # case of case: a scrutinee that is itself a conditional over constructor values (a helper returning
